@@ -115,3 +115,21 @@ func vh_lz4_roundtrip() {
 	vAssert(derr == nil && len(out) == len(data), "C18/lz4/roundtrip-length")
 	vObserve("len", len(enc))
 }
+
+// Encode for a body of ANY length up to 16 MiB (content irrelevant: the codec is the contract stub):
+// the codec is always given room for the worst case, is called until it has produced the block, and
+// the prefix announces the body's length.
+func vh_lz4_encode_sizes() {
+	n := vInt("len")
+	vAssume(n >= 0 && n <= 1<<24)
+	data := vSliceOfLen(n)
+	vCompCalls, vCompFails, vCompN = 0, false, vInt("n")
+	out, err := LZ4Compressor{}.Encode(data)
+	vAssert(vCompCalls >= 1 && len(vCompSrc) == len(data), "C18/lz4/encode-compresses-the-whole-body")
+	vAssert(len(vCompDst) >= plz4.CompressBlockBound(len(data)), "C18/lz4/encode-gives-the-codec-enough-room")
+	vAssert(err == nil && len(out) == vCompN+4, "C18/lz4/encoded-is-prefix-plus-block")
+	if err == nil && len(out) >= 4 {
+		vAssert(out[0] == byte(n>>24) && out[1] == byte(n>>16) && out[2] == byte(n>>8) && out[3] == byte(n), "C18/lz4/prefix-is-big-endian-uncompressed-length")
+	}
+	vObserve("ok", err == nil)
+}
